@@ -3,7 +3,7 @@
 EXTENDS RuxResource, Json
 
 VARIABLES impl, base
-Bases == { <<"/">>, <<"/", "a", "p", "i", "/">>, <<>>, <<"/", "A", "p", "I", "/">> }     \* the base path is kept as written (only the resource name is lower-cased)
+Bases == { <<"/">>, <<"/", "a", "p", "i", "/">>, <<>>, <<"/", "A", "p", "I", "/">>, <<"/", "v", "1", ".", "0", "/">> }     \* the base path is kept as written (only the resource name is lower-cased)
 Res == <<"r", "e", "s">>
 Init == impl = {} /\ base \in Bases
 Next == \E a \in Actions \ impl : impl' = impl \cup {a} /\ UNCHANGED base
